@@ -30,6 +30,14 @@ Bad(e) ==
          ELSE IF e.rc = 0 THEN (IF E = {} THEN {} ELSE {"an ill-formed program was accepted"})
          ELSE IF E = {} THEN {"a well-formed program was rejected (" \o e.cls \o ")"}
          ELSE IF <<e.cls, e.ln>> \in E THEN {} ELSE {"the reported error (" \o e.cls \o ") is not a defect of the program at that line"}
+    [] e.ev = "sprog" ->     \* a structured rule (branch ... along ...); e.key = <<item, block, index>> of the reported line
+         LET E == ErrorsS(e.prog) IN
+         IF e.rc \notin {0, 1}
+         THEN (IF SelfDef(AllFrom(e.prog, 1)[1]) THEN {"accepted `v := t!` with v occurring in t and crashed while lowering it"}
+               ELSE {"the compiler crashed (exit status " \o ToString(e.rc) \o ")"})
+         ELSE IF e.rc = 0 THEN (IF E = {} THEN {} ELSE {"an ill-formed program was accepted"})
+         ELSE IF E = {} THEN {"a well-formed program was rejected (" \o e.cls \o ")"}
+         ELSE IF <<e.cls, <<e.key[1], e.key[2], e.key[3]>>>> \in E THEN {} ELSE {"the reported error (" \o e.cls \o ") is not a defect of the program at that line"}
     [] e.ev = "mutant" ->
          IF e.rc \notin {0, 1} THEN {"the compiler crashed (exit status " \o ToString(e.rc) \o ")"}
          ELSE IF e.rc = 0 THEN {"a program with a planted " \o e.planted \o " defect was accepted"}
@@ -44,7 +52,7 @@ Step ==
   /\ LET e == Rec[l] IN
      /\ viol' = viol \cup { v \in {[prop |-> "C10", line |-> l, id |-> e.id, what |-> w] : w \in Bad(e)} :
                                  Cardinality({ u \in viol : u.what = v.what }) < 6 }
-     /\ stats' = [stats EXCEPT !.progs = @ + (IF e.ev = "prog" THEN 1 ELSE 0), !.accepted = @ + (IF e.rc = 0 THEN 1 ELSE 0),
+     /\ stats' = [stats EXCEPT !.progs = @ + (IF e.ev \in {"prog", "sprog"} THEN 1 ELSE 0), !.accepted = @ + (IF e.rc = 0 THEN 1 ELSE 0),
                                !.rejected = @ + (IF e.rc = 1 THEN 1 ELSE 0), !.mutants = @ + (IF e.ev = "mutant" THEN 1 ELSE 0)]
 Spec == Init /\ [][Step]_tvars
 Report == (l = Len(Rec) + 1) => PrintT(<<"RESULT", ToJson([viol |-> viol, stats |-> stats, events |-> Len(Rec)])>>)
